@@ -3,11 +3,12 @@ import re
 
 from lib import coq_term_str as S, coq_list as L, coq_nat as N
 
-THEOREMS = ['C19_earley_matches_supported', 'C19_M_earley_sound', 'C19_M_earley_ok', 'C19_M_earley_complete',
+THEOREMS = ['C19_F38_refuted', 'C19_model_conditions_regenerated', 'C19_relex_safe_bc', 'C19_lexed_tokens_lexable', 'C19_relex_safe_implies_bc', 'C19_char_roundtrip',
+            'C19_m_cp_string', 'C19_char_roundtrip_example', 'C19_earley_matches_supported', 'C19_M_earley_sound', 'C19_M_earley_ok', 'C19_M_earley_complete',
             'C19_recons_token_roundtrip_earley', 'C19_resolve_selector_exists', 'C19_join_spec', 'C19_relex',
             'C19_char_roundtrip_partial', 'C19_write_tokens_yield', 'C19_recons_token_sound', 'C19_recons_token_roundtrip_partial', 'C19_recons_token_roundtrip',
             'C19_match_exists', 'C19_matcher_accepts', 'C19_text', 'C19_H_relex_refuted', 'C19_example']
-GEN_DEPS = []
+GEN_DEPS = ['ReconsHoles']
 RULE = ('seeded random grammars of the supported class (statement / expression / list / program skeletons and prefix-guarded '
         'random rules, with ?rule, _rule, !rule, aliases, * + ? [] operators, anonymous / named / _named string tokens, '
         'string literals shared between !rules (kept) and ordinary rules (filtered), operators factored into !op rules, '
@@ -20,20 +21,24 @@ RULE = ('seeded random grammars of the supported class (statement / expression /
         'match_tree / write_tokens call of the first sequence; a wide stream adds grammars outside the class (rule '
         'derivation and match/write correspondence only); exotic stream = fixed witnesses of the listed findings; '
         'non-trivial = distinct (grammar, sentence) whose reconstruction re-inserted >= 1 filtered token and used >= 1 '
-        'inlined match node')
+        'inlined match node; relex-safe stream = one case per generated grammar (per-grammar condition vs observed H_relex '
+        'of every tree); shared-alias / term_subs-family = fixed systematic families run by the oracle on one Reconstructor '
+        'in every rotation of the inputs; idc-ascii = is_id_continue on the 128 ASCII characters')
 TRUSTED_BASE = ['the parser side is a specification (derivation trees of parser.rules, ChildFilter/ExpandSingleChild shape), '
                 'not a model of the LALR/Earley engines (that is C01-C03); match_tree is modelled as an arbitrary function '
                 'returning supported matches - each recorded match is validated against the model grammar by the harness',
                 'name numbering, snapshots of Tree/Token objects and of meta.orig_expansion taken by run-time wrapping of '
                 'Reconstructor.match_tree and WriteTokensTransformer.transform',
-                'is_id_continue is modelled for ASCII only (generated texts are ASCII)']
+                'is_id_continue is modelled for ASCII only (generated texts are ASCII)',
+                'translator/gen_recons.py templates pin the shape of the mirrored functions; m_cp models string and [..]+ '
+                'terminals only (compared with Python re on every recorded text)']
 ASSUMPTIONS = ['maybe_placeholders=False, term_subs empty, no postlex, no templates, rule names do not collide with '
                'attributes of WriteTokensTransformer', 'C19_text holds under H_relex (joined text lexes back to the written '
                'tokens); H_relex is refuted in general (F12)']
 
 IMPORTS = 'From LV Require Import Base.Prelude Cfg.Grammar Recons.Recons Recons.ReconsCheck Recons.Text.'
 RX_IMPORTS = ('From LV Require Import Base.Prelude Lex.LexerBase Lex.Lexer Lex.LexerCheck Recons.Recons Recons.Relex '
-              'Recons.RelexCheck.')
+              'Recons.RelexCheck Recons.RelexSafe Recons.RelexSafeCheck.')
 
 F12_KEY = 'F12:adjacent-tokens-relex'
 F13_KEY = 'C19-F13:shared-alias-two-origins'
@@ -868,6 +873,177 @@ def relex_case(pbasic, lits, typed, text):
         ('(Some %s)' % toks(lark_toks)) if lark_toks is not None else 'None'), relex
 
 
+
+# ----------------------------------------------------------------------------------------------------
+# per-grammar condition relex_safe: the harness's own evaluation on lark's real scanner order (mirror of
+# Recons/RelexSafe.relex_safe_b; the model's verdict on its own lexer must be the same: RelexSafeCheck.check_safe)
+def cls_of(pat):
+    """[items]+ with plain characters and ranges only -> list of (lo, hi), else None"""
+    if not pat.startswith('[') or not pat.endswith(']+'):
+        return None
+    body, out, i = pat[1:-2], [], 0
+    if not body:
+        return None
+    while i < len(body):
+        c = body[i]
+        if c in '\\^[]-':
+            return None
+        if i + 2 < len(body) and body[i + 1] == '-':
+            e = body[i + 2]
+            if e in '\\^[]-':
+                return None
+            out.append((c, e))
+            i += 3
+        elif i + 1 < len(body) and body[i + 1] == '-':
+            return None
+        else:
+            out.append((c, c))
+            i += 1
+    return out
+
+
+def idc(ch):
+    return ch == '_' or (ch.isascii() and ch.isalnum())
+
+
+class SafeEval:
+    def __init__(self, model, flat, ign, report):
+        by = {t['name']: t for t in model}
+        self.T = [by[n] for n in flat]
+        self.ign = set(ign)
+        self.report = report
+        self.cls = {t['name']: (cls_of(t['value']) if t['re'] else None) for t in self.T}
+
+    def term_ok(self, t):
+        if t['flags']:
+            return False
+        return self.cls[t['name']] is not None if t['re'] else t['value'] != ''
+
+    def in_cls(self, t, ch):
+        return any(a <= ch <= b for a, b in self.cls[t['name']])
+
+    def chars(self, t):
+        return [chr(i) for i in range(256) if self.in_cls(t, chr(i))]
+
+    def firsts(self, t):
+        return self.chars(t) if t['re'] else [t['value'][0]]
+
+    def lasts(self, t):
+        return self.chars(t) if t['re'] else [t['value'][-1]]
+
+    def mm(self, t, s):
+        if t['re']:
+            k = 0
+            while k < len(s) and self.in_cls(t, s[k]):
+                k += 1
+            return k or None
+        return len(t['value']) if s.startswith(t['value']) else None
+
+    def first(self, s):
+        for t in self.T:
+            k = self.mm(t, s)
+            if k is not None:
+                return t, k
+        return None
+
+    def safe(self, lits):
+        T = self.T
+        if not all(self.term_ok(t) for t in T):
+            return False
+        live = [t for t in T if t['name'] not in self.ign]
+        all_firsts = [c for t in live for c in self.firsts(t)]
+
+        def next_firsts(t):
+            return {(' ' if idc(a) and idc(b) else b) for a in self.lasts(t) for b in all_firsts}
+        for t in live:                                                   # S1
+            if t['re'] and any(self.in_cls(t, ch) for ch in next_firsts(t)):
+                return False
+        for i, t in enumerate(T):                                        # S2
+            if t['name'] in self.ign:
+                continue
+            for u in T[:i]:
+                if u['re']:
+                    continue
+                if t['re']:
+                    if self.in_cls(t, u['value'][0]):
+                        return False
+                elif u['value'].startswith(t['value']) and len(u['value']) > len(t['value']):
+                    if u['value'][len(t['value'])] in next_firsts(t):
+                        return False
+        need_any = any(idc(a) for t in live for a in self.lasts(t)) and any(idc(b) for b in all_firsts)
+        if need_any:                                                     # S3
+            for u in T:
+                if u['re']:
+                    if self.in_cls(u, ' '):
+                        return False
+                elif u['value'][0] == ' ' and u['value'] != ' ':
+                    return False
+            w = self.first(' ')
+            if w is None or w[1] != 1 or w[0]['name'] not in self.ign:
+                return False
+        for n, v in lits:                                                # S4
+            if v == '':
+                return False
+            w = self.first(v)
+            if w is None or w[1] != len(v) or w[0]['name'] in self.ign or self.report(w[0]['name'], v) != n:
+                return False
+        return True
+
+
+def basic_lexer_of(pbasic):
+    from props import C07
+    lx = getattr(getattr(pbasic, 'parser', None), 'lexer', None)
+    if lx is None or not hasattr(lx, 'scanner'):
+        lx = C07.build_basic(list(pbasic.terminals), list(pbasic.ignore_tokens), False, 0)
+    return lx
+
+
+def safe_case(pbasic, rules, lits, all_relex):
+    """per-grammar relex_safe case -> (Coq term, predicted safe, every terminal supported) or None"""
+    from props import C07
+    from lark import Token
+    tdefs = list(pbasic.terminals)
+    model = C07.tdefs_to_model(tdefs)
+    if any(not isinstance(t['prio'], int) for t in model):
+        return None
+    if any(ord(ch) > 126 or ord(ch) < 32 for t in model for ch in t['value'] + t['name']):
+        return None
+    lx = basic_lexer_of(pbasic)
+    ob = C07.observe_lexer(lx)
+    flat = [n for grp in ob['mres'] for n in grp]
+    names = [t['name'] for t in model]
+    idx = {n: i for i, n in enumerate(names)}
+    filtered = sorted({s[0] for r in rules for s in r['exp'] if s[1] and s[2] and s[0] in lits and s[0] in idx})
+
+    def report(tname, v):
+        cb = lx.callback.get(tname)
+        return str(cb(Token(tname, v)).type) if cb else tname
+    ev = SafeEval(model, flat, ob['ignore'], report)
+    pred = ev.safe([(n, lits[n]) for n in filtered])
+    term = '(mkSf %s %s %s %s %s %s %s)' % (
+        L([C07.coq_term(t) for t in model]), L([S(str(x)) for x in pbasic.ignore_tokens]), L([S(n) for n in names]),
+        L(['(%d, %s)' % (idx[n], S(lits[n])) for n in filtered]), L([S(n) for n in flat]),
+        'true' if pred else 'false', 'true' if all_relex else 'false')
+    return term, pred, all(ev.term_ok(t) for t in ev.T)
+
+
+def observed_relex(pbasic, lits, typed, text):
+    """did lark's BasicLexer map the reconstructed text back to the written (type, text) tokens? None = cannot tell"""
+    import lark
+    written = []
+    for ty, tx in typed:
+        if ty is None:
+            cands = [n for n, v in lits.items() if v == tx]
+            if len(cands) != 1:
+                return None
+            ty = cands[0]
+        written.append((ty, tx))
+    try:
+        return [(str(t.type), str(t)) for t in pbasic.lex(text)] == written
+    except lark.exceptions.LarkError:
+        return False
+
+
 def judge(p0, parsers, kind0, pbasic, tx, snap, items, text, exc):
     """the property's oracle on one reconstruct() result -> (verdict or None, relex_ok)"""
     import lark
@@ -1011,6 +1187,11 @@ def build_case(ctx, rng, gtext, nsent, stream, wide=False, fixed_inputs=None, ki
             except lark.exceptions.LarkError:
                 pass
         verdict, relex_ok = judge(p0, parsers, kind0, pbasic, tx, snap, items, text, exc)
+        if exc is None and pbasic is not None:
+            orx = observed_relex(pbasic, lits, obs.typed, text)
+            res.setdefault('relex_obs', []).append(orx)
+            if orx is False and 'relex_fail' not in res:
+                res['relex_fail'] = dict(text=tx, reconstructed=text)
         if verdict and in_class and not amb and not relex_ok:
             ctx.count(stream + ':relex-fails(F12-class)', key=(gtext, tx), nontrivial=False)
         elif verdict and in_class and not amb:
@@ -1058,6 +1239,8 @@ def build_case(ctx, rng, gtext, nsent, stream, wide=False, fixed_inputs=None, ki
                 res['rules_mutated'] = dict(history=list(hist2), text=tx)
                 final_rules = now
             verdict, relex_ok = judge(p0, parsers, kind0, pbasic, tx, snap, items, text, exc)
+            if exc is None and pbasic is not None:
+                res.setdefault('relex_obs', []).append(observed_relex(pbasic, lits, obs2.typed, text))
             ctx.count(stream + ':reordered', key=(gtext, tuple(hist2), tx), nontrivial=bool(hist2),
                       outcome2=('ok' if verdict is None else verdict.split(' raised')[0]))
             if verdict and in_class and relex_ok and verdict1 is None:
@@ -1074,6 +1257,14 @@ def build_case(ctx, rng, gtext, nsent, stream, wide=False, fixed_inputs=None, ki
     res['plain_roots'] = plain_roots(rules)
     res['meta'] = dict(grammar=gtext, parser=kind0, inputs=[tx for tx, _ in res.get('inputs', [])],
                        rules=len(rules), derived=len(d_rules), rules_mutated=res.get('rules_mutated'))
+    if pbasic is not None and res.get('relex_obs'):
+        try:
+            sc = safe_case(pbasic, rules, dict(lits, **(term_subs or {})), all(o is not False for o in res['relex_obs']))
+        except Exception as e:   # noqa
+            sc = None
+            res.setdefault('errors', []).append('safe_case: %s' % type(e).__name__)
+        if sc is not None:
+            res['safe_case'] = sc
     try:
         res['case'] = c_case(rules, lits, d_rules, d_rfr, coq_cls, in_class and not wide, runs, subs=term_subs)
     except ValueError as e:
@@ -1104,13 +1295,13 @@ TERM_SUBS = [
 ]
 
 
-def roundtrip(gtext, text, kind='lalr', history=()):
+def roundtrip(gtext, text, kind='lalr', history=(), term_subs=None):
     """the property's oracle on one input, reconstructed by a Reconstructor that has already reconstructed the
     trees of `history` (the object caches one matching parser per node kind): None if it holds, else a description"""
     import lark
     from lark.reconstruct import Reconstructor
     p = make_parser(gtext, kind)
-    rec = Reconstructor(p)
+    rec = Reconstructor(p, term_subs) if term_subs else Reconstructor(p)
     for h in history:
         try:
             with_timeout(20, rec.reconstruct, p.parse(h))
@@ -1200,11 +1391,115 @@ def lex_case(gtext, texts):
     return out
 
 
+
+# ----------------------------------------------------------------------------------------------------
+# systematic corner families evaluated by the round-trip oracle itself (fixed grammars, every order of the inputs on ONE
+# Reconstructor): an alias shared by alternatives of several rules (the aliased node below the first / a later rule, the
+# alias repeated inside one rule), and term_subs callbacks returning a plain str or a Token (a str subclass, as in lark's
+# examples/advanced/reconstruct_python.py) with several nodes of the same shape in one history
+LEX_TAIL = 'NAME: /[a-z]+/\nNUMBER: /[0-9]+/\n%ignore " "\n'
+SHARED_ALIAS = [
+    ('start: stmt+\nstmt: "type" NAME "=" type_ ";" -> typedef\n | NAME "=" value ";" -> assign\n'
+     '?type_: NAME\n | NAME "<" NAME ">" -> apply\n?value: NUMBER\n | NAME "(" NUMBER ")" -> apply\n' + LEX_TAIL,
+     ['x = f(3); y = 4; type u = int;', 'type t = list<int>; x = f(3);', 'type a = b<c>; type d = e;', 'x = 1;']),
+    ('start: (a | b | c)+\na: "<" NAME ">" -> node\n | "a" NAME\nb: "[" NUMBER NUMBER "]" -> node\n | "b" NUMBER\n'
+     'c: "{" NAME NUMBER "}" -> node\n | "(" NUMBER NAME NAME ")" -> node\n | "c" NAME NAME\n' + LEX_TAIL,
+     ['<x>', '[1 2] <y>', '{z 3} (4 p q)', 'a x b 1 c u v', '<x> [1 2] {z 3} (4 p q) a w']),
+    ('start: item+\n?item: "!" NAME -> mark\n | "(" item ")"\n | other\n?other: "?" NUMBER NUMBER -> mark\n | NUMBER\n' + LEX_TAIL,
+     ['! a', '? 1 2', '( ! a ) 3 ? 4 5', '( ( 7 ) )']),
+]
+SUBS_FAMILY = [
+    ('start: stmt+\nstmt: NAME "=" value _NL\n?value: NUMBER\n | NAME\n | "-" NUMBER -> neg\n_NL: /;+/\n' + LEX_TAIL,
+     {'_NL': ';'}, ['a = 1 ;', 'a = 1 ; b = c ;;', 'a = 1 ; b = 2 ; c = - 3 ; d = e ; e = - 4 ;']),
+] + [(g, subs, inputs) for g, subs, inputs in TERM_SUBS]
+
+
+def family_stream(ctx):
+    from lark import Token
+    from lark.exceptions import LarkError
+
+    def run(stream, g, texts, kind, order, mk_subs, label):
+        hist = []
+        for tx in order:
+            try:
+                bad = roundtrip(g, tx, kind, history=tuple(hist), term_subs=mk_subs() if mk_subs else None)
+            except LarkError as e:
+                bad = 'raised %s' % type(e).__name__
+            except Exception as e:   # noqa
+                bad = 'raised %s' % type(e).__name__
+            ctx.count(stream, key=(g, kind, tuple(hist), tx, label), nontrivial=True)
+            if bad:
+                ctx.violation('roundtrip-oracle', dict(grammar=g, text=tx, parser=kind, history=list(hist),
+                                                       term_subs=label, detail=bad), True,
+                              '%s (%s): %s' % (stream, label or 'no term_subs', bad))
+                return
+            hist.append(tx)
+    for g, texts in SHARED_ALIAS:
+        for kind in ('lalr', 'earley'):
+            for k in range(len(texts)):
+                run('shared-alias', g, texts, kind, texts[k:] + texts[:k], None, None)
+    for g, subs, texts in SUBS_FAMILY:
+        for kind in ('lalr', 'earley'):
+            for label, mk in (('str', lambda: {k: (lambda sym, v=v: v) for k, v in subs.items()}),
+                              ('Token', lambda: {k: (lambda sym, v=v: Token(sym.name, v)) for k, v in subs.items()})):
+                for k in range(min(2, len(texts))):
+                    run('term_subs-family', g, texts, kind, texts[k:] + texts[:k], mk, label)
+
+
+def idc_eval(ctx, box):
+    """the Coq side of idc_stream (run in a helper thread: it only waits for coqtop)"""
+    box['val'], box['out'] = ctx.coq_eval(
+        'c19_idc', 'From LV Require Import Recons.Recons Recons.GenBase.',
+        'map (fun n => (ascii_cat (Ascii.ascii_of_nat n), is_id_continue (Ascii.ascii_of_nat n))) (seq 0 128)')
+
+
+def idc_stream(ctx, box):
+    """is_id_continue on the ASCII range: lark.utils.is_id_continue and unicodedata.category against the model's
+    is_id_continue and the category table behind the regenerated category tuple (Recons/GenBase.ascii_cat)"""
+    import unicodedata
+    from lark.utils import is_id_continue
+    val, out = box.get('val'), box.get('out')
+    got = re.findall(r'\(\s*"(\w\w|\?\?)",\s*(true|false)\s*\)', val or '')
+    if len(got) != 128:
+        ctx.violation('correspondence:coq-eval', {'error': (out or '')[-400:]}, False, 'is_id_continue table not evaluated')
+        return
+    for i, (cat, b) in enumerate(got):
+        ch = chr(i)
+        ok = cat == unicodedata.category(ch) and (b == 'true') == bool(is_id_continue(ch))
+        ctx.count('idc-ascii', key=i, nontrivial=True)
+        if not ok:
+            ctx.violation('correspondence:Recons.is_id_continue / GenBase.ascii_cat vs lark.utils.is_id_continue / unicodedata',
+                          dict(no_longer_checks='the spacing rule of the model (is_id_continue on ASCII)', char=i,
+                               model=[cat, b], lark=[unicodedata.category(ch), bool(is_id_continue(ch))]), False,
+                          'is_id_continue differs on chr(%d)' % i)
+            return
+
+
 def correspond(ctx):
     rng = ctx.rng
+    import threading
+    idc_box = {}
+    idc_thread = threading.Thread(target=idc_eval, args=(ctx, idc_box))
+    idc_thread.start()
     name_collision_stream(ctx)
+    family_stream(ctx)
     lex_cases = []
     rx_cases, rx_meta = [], []
+    sf_cases, sf_meta = [], []
+
+    def add_safe(r, g, stream):
+        sc = r.get('safe_case') if r.get('ok') else None
+        if sc is None:
+            return
+        term, pred, supported = sc
+        all_ok = all(o is not False for o in r['relex_obs'])
+        sf_cases.append(term)
+        sf_meta.append(dict(grammar=g, stream=stream, predicted_safe=pred, observed_all_relex=all_ok,
+                            relex_fail=r.get('relex_fail'), inputs=(r.get('meta') or {}).get('inputs')))
+        ctx.count('relex-safe', key=(g, stream), nontrivial=supported, predicted_safe=pred,
+                  terminals_supported=supported, observed_relex_on_all_trees=all_ok, trees=min(len(r['relex_obs']), 12),
+                  verdict=('safe,relexed' if pred and all_ok else 'SAFE-BUT-FAILED' if pred else
+                           'not-safe,relexed' if all_ok else 'not-safe,failed'))
     n_class = ctx.scale(75, 700) * (3 if ctx.widen else 1)
     n_wide = ctx.scale(30, 250)
     cases, metas = [], []
@@ -1237,6 +1532,7 @@ def correspond(ctx):
         if r['case']:
             cases.append(r['case'])
             metas.append(r['meta'])
+        add_safe(r, g, 'class')
         for rc, ok in r.get('relex_cases', []):
             if len(rx_cases) < ctx.scale(70, 1200):
                 rx_cases.append(rc)
@@ -1262,6 +1558,7 @@ def correspond(ctx):
         if not r['ok'] or not r['case']:
             continue
         wide_n += 1
+        add_safe(r, g, 'wide')
         cases.append(r['case'])
         metas.append(r['meta'])
         if wide_n <= 1:
@@ -1280,6 +1577,7 @@ def correspond(ctx):
                 ctx.note('finding %s reproduces (%s) but is not yet listed in KNOWN_FINDINGS.json' % (key, msg))
                 ctx.extra.setdefault('unlisted_findings_reproduced', []).append(key)
         r = build_case(ctx, rng, g, 0, 'exotic-model', wide=True, fixed_inputs=[text], kinds=('lalr',))
+        add_safe(r, g, 'exotic')
         if r['ok'] and r['case']:
             cases.append(r['case'])
             metas.append(r['meta'])
@@ -1290,11 +1588,14 @@ def correspond(ctx):
     # term_subs: filtered regexp terminals written through WriteTokensTransformer.term_subs
     for g, subs, inputs in TERM_SUBS:
         r = build_case(ctx, rng, g, 0, 'term_subs', fixed_inputs=inputs, kinds=('lalr',), term_subs=subs)
+        add_safe(r, g, 'term_subs')
         if r['ok'] and r['case']:
             cases.append(r['case'])
             metas.append(r['meta'])
             for v in r['viol']:
                 ctx.violation('roundtrip-oracle', v, True, v['detail'])
+    idc_thread.join()
+    idc_stream(ctx, idc_box)
     # the mini-lexer model used by H_relex_refuted against lark's basic lexer (literal-only grammars and F12)
     for lc in lex_case(EXOTIC[0][1], ['+ +', '++', '+++', '+ ++ +']):
         lex_cases.append(lc)
@@ -1308,15 +1609,46 @@ def correspond(ctx):
                       'the literal-only lexer model and lark.lex disagree')
     # character level: bc_b / lex_model of the BasicLexer model against lark's lexer on the reconstructed texts
     from props import C07 as _C07
-    badx, errx = ctx.coq_bad_indices('c19rx', RX_IMPORTS, 'check_relex', rx_cases, chunk=ctx.scale(18, 60),
+    badx, errx = ctx.coq_bad_indices('c19rx', RX_IMPORTS, 'check_relex_all', rx_cases, chunk=ctx.scale(18, 60),
                                      extra_defs=_C07.extra_defs())
     for e in errx:
         ctx.violation('correspondence:coq-eval', {'error': e}, False, e[:300])
     for i in badx[:3]:
-        ctx.violation('correspondence:Recons/Relex (join_sp, bc_b, lex_model) vs lark reconstruct() text and BasicLexer',
-                      dict(no_longer_checks='character-level model agreement', grammar=rx_meta[i][0],
-                           inputs=rx_meta[i][1]), False,
-                      'the boundary condition / lexer model and lark disagree on a reconstructed text')
+        code, _ = ctx.coq_eval('c19rx_code_%d' % i, RX_IMPORTS + '\n' + _C07.extra_defs(), 'check_relex_code %s' % rx_cases[i])
+        if (code or '').strip() == '2':
+            ctx.violation('correspondence:Recons/RelexSafe.m_cp (string / class-plus matcher) vs Python re on a reconstructed text',
+                          dict(no_longer_checks='the computed matcher of the per-grammar condition relex_safe',
+                               grammar=rx_meta[i][0], inputs=rx_meta[i][1]), False,
+                          'm_cp and the recorded re table disagree')
+        else:
+            ctx.violation('correspondence:Recons/Relex (join_sp, bc_b, lex_model) vs lark reconstruct() text and BasicLexer',
+                          dict(no_longer_checks='character-level model agreement', grammar=rx_meta[i][0],
+                               inputs=rx_meta[i][1]), False,
+                          'the boundary condition / lexer model and lark disagree on a reconstructed text')
+    # per grammar: relex_safe_b evaluated by the model on its own lexer against the harness's evaluation on lark's scanner
+    # order, and the prediction against the observed H_relex of every reconstructed tree (never "safe but failed")
+    bads, errsf = ctx.coq_bad_indices('c19sf', RX_IMPORTS, 'check_safe', sf_cases, chunk=ctx.scale(30, 80),
+                                      extra_defs=_C07.extra_defs())
+    for e in errsf:
+        ctx.violation('correspondence:coq-eval', {'error': e}, False, e[:300])
+    for i in bads[:3]:
+        code, _ = ctx.coq_eval('c19sf_code_%d' % i, RX_IMPORTS + '\n' + _C07.extra_defs(), 'check_safe_code %s' % sf_cases[i])
+        what = {'1': 'the lexer model could not be built', '2': 'scanner trial order (model vs lark)',
+                '3': 'relex_safe_b: model verdict differs from the harness evaluation on lark\'s scanner order',
+                '4': 'relex_safe_b holds but a reconstructed text did not lex back to the written tokens'}.get(
+                    (code or '').strip(), 'relex_safe case')
+        m = sf_meta[i]
+        ctx.violation('correspondence:Recons/RelexSafe (per-grammar relex_safe) vs lark: ' + what,
+                      dict(no_longer_checks='C19_char_roundtrip applies to the relex-safe grammars: ' + what,
+                           grammar=m['grammar'], inputs=m['inputs'], relex_fail=m['relex_fail'],
+                           predicted_safe=m['predicted_safe']), False, what)
+    for m in sf_meta:
+        if m['predicted_safe'] and not m['observed_all_relex'] and not bads:
+            # the harness's own evaluation says safe, the model agreed, and lark failed to re-lex: cannot happen for a
+            # faithful model (C19_relex_safe_implies_bc); reported even if the Coq comparison above was skipped
+            ctx.violation('correspondence:relex_safe predicted a re-lexable text',
+                          dict(no_longer_checks='relex_safe prediction', **m), False, 'safe but the re-lex failed')
+            break
     bad, errs = ctx.coq_bad_indices('c19', IMPORTS, 'check_case', cases, chunk=ctx.scale(25, 60))
     for e in errs:
         ctx.violation('correspondence:coq-eval', {'error': e}, False, e[:300])
@@ -1415,6 +1747,13 @@ def replay(ctx, case):
     if 'grammar' not in w or 'text' not in w:
         return False
     try:
-        return roundtrip(w['grammar'], w['text'], w.get('parser', 'lalr'), history=w.get('history') or ()) is not None
+        subs = None
+        if w.get('term_subs') in ('str', 'Token'):
+            from lark import Token
+            tbl = dict(pair for g, sb, _ in SUBS_FAMILY if g == w['grammar'] for pair in sb.items())
+            subs = {k: ((lambda sym, v=v: Token(sym.name, v)) if w['term_subs'] == 'Token' else (lambda sym, v=v: v))
+                    for k, v in tbl.items()}
+        return roundtrip(w['grammar'], w['text'], w.get('parser', 'lalr'), history=w.get('history') or (),
+                         term_subs=subs) is not None
     except Exception:   # noqa
         return False
